@@ -312,6 +312,8 @@ pub fn c01_families(tier: &str) -> Vec<SeqSpec> {
     v.push(spec("F-flush/T300", &["T300"], k3(), a1(), if t { 7 } else { 4 }, READS).flush());
     v.push(spec("F-flush2/T300", &["T300"], k2(), a_small2(), if t { 9 } else { 6 }, READS).flush());
     v.push(spec("F-flush/T1", &["T1"], k3s(), a1(), if t { 6 } else { 4 }, READS).flush());
+    // a block cache of two entries: every block read evicts another block
+    v.push(spec("F-flush/T300c", &["T300c"], k3s(), a1(), if t { 6 } else { 4 }, READS).flush());
     // gap keys + a filter that lets every lookup through (see `k3g`)
     v.push(spec("F-gap/T300p", &["T300p", "T1p"], k3g(), a1(), if t { 6 } else { 4 }, READS).flush());
     // F-reopen: reopen with configuration change, ranged compaction, quiesce
@@ -825,11 +827,13 @@ pub fn c04(tier: &str) -> ! {
         fams.push(mk("C04/T300/d5xL3", "T300", a1(), 5, 3, true));
         fams.push(mk("C04/T1/d5xL3", "T1", a_c04(), 5, 3, true));
         fams.push(mk("C04/M2/d5xL3", "M2", a_c04(), 5, 3, false).lazy());
+        fams.push(mk("C04/T300c/d4xL4", "T300c", a1(), 4, 4, true));
     } else {
         fams.push(mk("C04/T300/d4xL3", "T300", a1(), 4, 3, true));
         fams.push(mk("C04/T1+snap/d3xL3", "T1", a_c04(), 3, 3, true));
         fams.push(mk("C04/T300+snap/d2xL4", "T300", a_c04(), 2, 4, true));
         fams.push(mk("C04/M2/d4xL3", "M2", a1(), 4, 3, false).lazy());
+        fams.push(mk("C04/T300c/d3xL3", "T300c", a1(), 3, 3, true));
     }
     run_families(&mut rep, fams, budget(tier), |c| c.starts_with("C04.") || c == "iter.err");
     finish_common(&mut rep);
